@@ -75,6 +75,7 @@ class Op:
         self.ok = None
         self.exc = None
         self.data = None
+        self.version_override = None
 
 
 def split_url(url):
@@ -173,13 +174,23 @@ class C14(World):
         try:
             if kind == "profile":
                 pk = {k: v for k, v in kw.items() if k in ("gen_newfileuid", "timeout")}
+                if ch.flag("op.profile_overrides", 0.25):       # what the profile scan passes
+                    v = (V1 + V2)[ch.pick("op.version", len(V1 + V2))]
+                    pk.update(version=v, prettyprint=bool(ch.pick("op.pretty", 2)),
+                              close_elements=True if v >= 200 else not ch.pick("op.unclosed", 2))
+                    op.version_override = v
                 out = c.request_profile(dryrun=(mode == "dryrun"), **pk)
             elif kind == "statements":
                 out = c.request_statements(slot.password, *reqs, **kw)
             elif kind == "accounts":
                 out = c.request_accounts(slot.password, datetime.datetime(2019, 5, 1, tzinfo=UTC), **kw)
             else:
-                out = c.request_tax1099(slot.password, "2019", recid="R1", **kw)
+                years = ["2019", "2020", "2018"][:1 + ch.pick("op.tax.years", 3)]
+                tk = dict(kw)
+                if ch.pick("op.tax.acctnum", 2):
+                    tk["acctnum"] = "A-77"
+                tk["recid"] = ["R1", None][ch.pick("op.tax.recid", 2)]
+                out = c.request_tax1099(slot.password, *years, **tk)
             op.data = out.read()
             op.ok = True
         except (sched.Deadlock, sched.StepCap):
@@ -298,9 +309,10 @@ class C14(World):
                                  f"{where}: request with the user's credentials went there, expected {exp} "
                                  f"({'configured URL, profile skipped' if op.mode == 'skip' else 'service URL advertised by the institution at ' + slot.url})",
                                  mode=op.mode)
-            if info["version"] != slot.version:
+            want_version = op.version_override if (op.version_override is not None and is_prof) else slot.version
+            if info["version"] != want_version:
                 self.violate("C14", "I4-body", "header-version",
-                             f"{where}: OFX header version {info['version']}, client configured {slot.version}")
+                             f"{where}: OFX header version {info['version']}, expected {want_version}")
             # no other instance's secrets anywhere
             for other in self.slots:
                 if other is not slot and (other.password.encode() in c.raw_out):
